@@ -177,6 +177,9 @@ void h_lbuf_save(void)
  * g_dirty[i] is the abstract "text differs from file" flag that lbuf_modified reports
  * (lbuf units prove lbuf_modified == (seq(hist_u) != useq_zero)). */
 char g_lbobj[16];
+/* recorded splices / register / mark operations of the line commands */
+struct ghost_edit { int calls; char *txt; int beg, end; int len0; int yank_calls, yank_reg, yank_beg, yank_end; int mark_calls, mark, mark_pos; char *reg_buf; int cp_calls, cp_beg, cp_end; char *cp_ret; int print_lines, print_first, print_last; } X;
+
 struct ghost_bufs {
 	int dirty[16];
 	int mod_calls;
@@ -238,6 +241,7 @@ int cmd_exec(char *cmd)
 
 char *lbuf_cp(struct lbuf *lb, int beg, int end)
 {
+	__CPROVER_assert(0 <= beg && beg <= end, "lbuf_cp precondition: 0 <= beg <= end");
 	char *r = malloc(1);
 	r[0] = 0;
 	return r;
@@ -260,6 +264,11 @@ int strcmp(const char *a, const char *b)
 	__CPROVER_assert(a != 0 && b != 0, "strcmp: arguments are not NULL");
 	if (a == b)
 		return 0;
+	/* exact when one side is a one-character string (e.g. the literal "%") */
+	if (a[0] != 0 && a[1] == 0)
+		return (b[0] == a[0] && b[1] == 0) ? 0 : (b[0] == 0 ? 1 : ((unsigned char) a[0] < (unsigned char) b[0] ? -1 : 1));
+	if (b[0] != 0 && b[1] == 0)
+		return (a[0] == b[0] && a[1] == 0) ? 0 : (a[0] == 0 ? -1 : ((unsigned char) a[0] < (unsigned char) b[0] ? -1 : 1));
 	if ((a == g_dup_dst && b == g_dup_src) || (a == g_dup_src && b == g_dup_dst))
 		return 0;
 	return __CPROVER_uninterpreted_strcmp(a, b);
@@ -355,7 +364,7 @@ struct ghost_wr { long mtime0; int dirty0; int own; int whole; int force; char *
  * clauses are the assertions of the harness (they need pre-state snapshots of several objects) */
 int ec_cmd_frame_contract(char *loc, char *cmd, char *arg, char *txt)
 __CPROVER_requires(loc != 0 && cmd != 0 && arg != 0)
-__CPROVER_assigns(E, B, __CPROVER_object_whole(bufs), xrow, xoff, xtop, xleft, xtd, xquit, g_dup_src, g_dup_dst, g_len)
+__CPROVER_assigns(E, B, X, __CPROVER_object_whole(bufs), xrow, xoff, xtop, xleft, xtd, xquit, g_dup_src, g_dup_dst, g_len)
 __CPROVER_frees(bufs[0].path)
 __CPROVER_ensures(1)
 ;
@@ -744,12 +753,24 @@ void h_bufs_find(void)
 }
 
 /* ================================================================== ec_buffer, ec_edit (C20, C02) */
-int g_atoi;
-/* STUB: atoi - any int (the digits are not interpreted; callers are checked for every value) */
+int g_atoi;		/* value returned when g_atoi_fixed (units that do not care about address arithmetic) */
+int g_atoi_fixed;
+int g_atoi_sum;	/* sum (int arithmetic, wrapping like the compiled code) of all values returned so far */
+int g_atoi_first, g_atoi_calls;
+/* STUB: atoi - any int the sign of the text allows; the digits are not interpreted (callers are checked for every value) */
 int atoi(const char *s)
 {
 	__CPROVER_assert(s != 0, "atoi: argument is not NULL");
-	return g_atoi;
+	if (g_atoi_fixed)
+		return g_atoi;
+	int v = nondet_int();
+	__CPROVER_assume(s[0] != '-' || v <= 0);
+	__CPROVER_assume(s[0] == '-' || v >= 0);
+	if (g_atoi_calls == 0)
+		g_atoi_first = v;
+	g_atoi_calls = g_atoi_calls < 1000 ? g_atoi_calls + 1 : 1000;
+	g_atoi_sum = (int) ((unsigned) g_atoi_sum + (unsigned) v);
+	return v;
 }
 
 int lbuf_rd(struct lbuf *lb, int fd, int beg, int end)
@@ -769,6 +790,7 @@ void h_ec_buffer(void)
 	loc[0] = 0;
 	arg[0] = nondet_char(); arg[1] = nondet_char(); arg[2] = 0;
 	g_atoi = nondet_int();
+	g_atoi_fixed = 1;
 	g_k = nondet_int();
 	__CPROVER_assume(0 <= g_k && g_k < 16);
 	__CPROVER_assume(bufs[0].lb != 0);
@@ -876,6 +898,294 @@ void h_ec_edit(void)
 		__CPROVER_assert(g_make_calls == 1 && B.rd_calls <= 1 && B.saved_calls == 1 && B.saved_slot == slot_of(bufs[0].lb) ,
 			"ec_edit: a new path gets a new buffer, read once and marked saved");
 	}
+#ifdef CANARY
+	__CPROVER_assert(0, "canary");
+#endif
+}
+
+
+/* ================================================================== addresses (C06, C05) */
+int g_jump_ret, g_jump_pos;	/* what lbuf_jump answers for the mark named in this address */
+int lbuf_jump(struct lbuf *lb, int mark, int *pos, int *off)
+{
+	__CPROVER_assert(pos != 0, "lbuf_jump: position pointer is not NULL");
+	/* callee contract (lbuf unit lbuf.marks): only a-z ' ` * [ ] ^ name marks; anything else, NUL included, fails */
+	if (!((mark >= 'a' && mark <= 'z') || mark == '\'' || mark == '`' || mark == '*' || mark == '[' || mark == ']' || mark == '^'))
+		return 1;
+	if (g_jump_ret)
+		return 1;
+	*pos = g_jump_pos;
+	if (off)
+		*off = 0;
+	return 0;
+}
+
+int g_search_ret;
+/* ex_search as seen by ex_lineno: consumes a delimited pattern inside the string, answers -1 or a line number */
+int ex_search_contract(char **pat)
+__CPROVER_requires(pat != 0 && *pat != 0 && (long) __CPROVER_POINTER_OFFSET(*pat) < g_sl && (*pat)[0] != 0)
+__CPROVER_assigns(*pat, xkwddir, __CPROVER_object_whole(xkwd))
+__CPROVER_ensures(__CPROVER_same_object(*pat, __CPROVER_old(*pat)) &&
+	(long) __CPROVER_POINTER_OFFSET(*pat) > (long) __CPROVER_POINTER_OFFSET(__CPROVER_old(*pat)) &&
+	(long) __CPROVER_POINTER_OFFSET(*pat) <= g_sl)
+__CPROVER_ensures(__CPROVER_return_value == g_search_ret)
+;
+
+#define MARKCH(c) (((c) >= 'a' && (c) <= 'z') || (c) == '\'' || (c) == '`' || (c) == '*' || (c) == '[' || (c) == ']' || (c) == '^')
+/* the value an address denotes: first term, then a chain of +k / -k.
+ * One contract, enforced on the real function (unit ex.ex_lineno, g_str == 0: the string is a
+ * fresh object) and used by ex_region (g_str = the command line the pointer walks in). */
+char *g_str;
+#define LN_D ((int) ((unsigned) g_atoi_sum - (unsigned) __CPROVER_old(g_atoi_sum)))
+#define EX_LINENO_CLAUSES \
+__CPROVER_requires(0 <= g_sl && g_sl <= EXLEN) \
+__CPROVER_requires(g_str != 0 || __CPROVER_is_fresh(num, sizeof(char *))) \
+__CPROVER_requires(g_str != 0 || __CPROVER_is_fresh(*num, g_sl + 1)) \
+__CPROVER_requires(g_str != 0 || (*num)[g_sl] == 0) \
+__CPROVER_requires(g_str == 0 || (num != 0 && __CPROVER_same_object(*num, g_str) && (long) __CPROVER_POINTER_OFFSET(*num) >= 0 && \
+	(long) __CPROVER_POINTER_OFFSET(*num) <= g_sl && (long) __CPROVER_POINTER_OFFSET(g_str) == 0)) \
+__CPROVER_requires(0 <= g_len && g_len <= 0x1000000) \
+__CPROVER_requires(-1 <= g_jump_pos && g_jump_pos <= 0x1000000 && -1 <= g_search_ret && g_search_ret < g_len) \
+__CPROVER_requires(!g_atoi_fixed) \
+__CPROVER_ensures(__CPROVER_same_object(*num, __CPROVER_old(*num)) && \
+	(long) __CPROVER_POINTER_OFFSET(*num) >= (long) __CPROVER_POINTER_OFFSET(__CPROVER_old(*num)) && \
+	(long) __CPROVER_POINTER_OFFSET(*num) <= g_sl) \
+__CPROVER_ensures((__CPROVER_old((*num)[0]) == '\'' && (g_jump_ret || !MARKCH(__CPROVER_old((*num)[1])))) ==> __CPROVER_return_value == -1) \
+__CPROVER_ensures(!(__CPROVER_old((*num)[0]) == '\'' && (g_jump_ret || !MARKCH(__CPROVER_old((*num)[1])))) ==> __CPROVER_return_value == ( \
+	__CPROVER_old((*num)[0]) == '.' ? (int) ((unsigned) (xrow) + (unsigned) LN_D) : \
+	__CPROVER_old((*num)[0]) == '$' ? (int) ((unsigned) (g_len - 1) + (unsigned) LN_D) : \
+	__CPROVER_old((*num)[0]) == '\'' ? (int) ((unsigned) (g_jump_pos) + (unsigned) LN_D) : \
+	(__CPROVER_old((*num)[0]) == '/' || __CPROVER_old((*num)[0]) == '?') ? (int) ((unsigned) (g_search_ret) + (unsigned) LN_D) : \
+	(__CPROVER_old((*num)[0]) >= '0' && __CPROVER_old((*num)[0]) <= '9') ? (int) ((unsigned) LN_D - 1u) : \
+	(int) ((unsigned) (xrow) + (unsigned) LN_D)))
+
+int ex_lineno_contract(char **num)
+EX_LINENO_CLAUSES
+__CPROVER_assigns(*num, g_atoi_sum, g_atoi_first, g_atoi_calls, xkwddir, __CPROVER_object_whole(xkwd))
+;
+
+/* the same clauses plus a ghost record of the values returned (for ex_region's value-level clause) */
+struct ghost_ln { int last, prev, cnt; } LN;
+int ex_lineno_rec_contract(char **num)
+EX_LINENO_CLAUSES
+__CPROVER_assigns(*num, g_atoi_sum, g_atoi_first, g_atoi_calls, xkwddir, __CPROVER_object_whole(xkwd), LN)
+__CPROVER_ensures(LN.last == __CPROVER_return_value && LN.prev == __CPROVER_old(LN.last) && LN.cnt == (__CPROVER_old(LN.cnt) < 100 ? __CPROVER_old(LN.cnt) + 1 : 100))
+;
+
+void h_ex_lineno(void)
+{
+	char **num;
+	GHOST_INIT();
+	FILE_ENV_HAVOC();
+	g_sl = nondet_long();
+	xrow = nondet_int();
+	g_jump_ret = nondet_bool(); g_jump_pos = nondet_int(); g_search_ret = nondet_int();
+	g_atoi_fixed = 0; g_atoi_calls = 0; g_atoi_sum = nondet_int();
+	g_str = 0;
+	ex_lineno(num);
+#ifdef CANARY
+	__CPROVER_assert(0, "canary");
+#endif
+}
+
+/* ---- ex_region: ranges are validated before any command touches lines (C05, C06) ---- */
+int ex_region_full_contract(char *loc, int *beg, int *end)
+__CPROVER_requires(0 <= g_sl && g_sl <= EXLEN && __CPROVER_is_fresh(loc, g_sl + 1) && loc[g_sl] == 0 && g_str == loc)
+__CPROVER_requires(__CPROVER_is_fresh(beg, sizeof(int)) && __CPROVER_is_fresh(end, sizeof(int)))
+__CPROVER_requires(0 <= g_len && g_len <= 0x1000000)
+/* NO assumption that the current line exists: a stale xrow (e.g. after an undo in ex mode) must be caught here */
+__CPROVER_requires(-1 <= g_jump_pos && g_jump_pos <= 0x1000000 && -1 <= g_search_ret && g_search_ret < g_len)
+__CPROVER_requires(!g_atoi_fixed && g_atoi_sum == 0)
+__CPROVER_requires(LN.cnt == 0)
+__CPROVER_assigns(*beg, *end, xrow, g_atoi_sum, g_atoi_first, g_atoi_calls, xkwddir, __CPROVER_object_whole(xkwd), LN)
+__CPROVER_ensures(__CPROVER_return_value == 0 || __CPROVER_return_value == 1)
+/* success means a range of existing lines (an empty range only as the documented "address 0"/empty-buffer cases) */
+__CPROVER_ensures(__CPROVER_return_value == 0 ==> (0 <= *beg && *beg <= *end && *end <= g_len))
+__CPROVER_ensures((__CPROVER_return_value == 0 && g_len > 0 && !(*beg == 0 && *end == 0) && *beg != g_len) ==> *beg < g_len)
+/* the range is what the addresses say: end = last address + 1, beg = the address before it (or the
+ * same one); nothing is silently clamped - only address 0 (-1,0) is read as "before the first line" */
+__CPROVER_ensures((__CPROVER_return_value == 0 && LN.cnt >= 1) ==> (*end == LN.last + 1 &&
+	(*beg == (LN.cnt == 1 ? LN.last : LN.prev) || ((LN.cnt == 1 ? LN.last : LN.prev) < 0 && *end == 0 && *beg == 0))))
+/* % is the whole buffer */
+__CPROVER_ensures((g_sl == 1 && __CPROVER_old(loc[0]) == '%') ==> (__CPROVER_return_value == 0 && *beg == 0 && *end == g_len))
+/* no address: the current line (nothing else changes) */
+__CPROVER_ensures((g_sl == 0 && __CPROVER_return_value == 0) ==> (*beg == xrow && xrow == __CPROVER_old(xrow) &&
+	*end == (xrow == g_len ? xrow : xrow + 1)))
+;
+
+void h_ex_region(void)
+{
+	char *loc;
+	int *beg, *end;
+	GHOST_INIT();
+	FILE_ENV_HAVOC();
+	g_sl = nondet_long();
+	xrow = nondet_int();
+	g_jump_ret = nondet_bool(); g_jump_pos = nondet_int(); g_search_ret = nondet_int();
+	g_atoi_fixed = 0; g_atoi_calls = 0; g_atoi_sum = 0;
+	g_str = nondet_ptr();
+	LN.cnt = 0; LN.last = nondet_int(); LN.prev = nondet_int();
+	ex_region(loc, beg, end);
+#ifdef CANARY
+	__CPROVER_assert(0, "canary");
+#endif
+}
+
+/* ================================================================== line commands: one splice of the validated range (C06) */
+/* ex_region as seen by the commands: the enforced clause "success => 0 <= beg <= end <= lines"
+ * (unit ex.ex_region); the ghost fields only give the outcome a name */
+int ex_region_cmd_contract(char *loc, int *beg, int *end)
+__CPROVER_requires(loc != 0 && beg != 0 && end != 0)
+__CPROVER_assigns(*beg, *end, xrow)
+__CPROVER_ensures(__CPROVER_return_value == B.region_ret && *beg == B.region_beg && *end == B.region_end)
+;
+
+
+/* callee contract of lbuf_edit (lbuf unit lbuf.lbuf_edit): clamp, no-op iff empty range and no text, else one splice */
+void lbuf_edit(struct lbuf *lb, char *buf, int beg, int end)
+{
+	__CPROVER_assert(0 <= beg && beg <= end, "lbuf_edit precondition: 0 <= beg <= end");
+	X.calls = X.calls < 100 ? X.calls + 1 : 100;
+	X.txt = buf;
+	X.beg = beg;
+	X.end = end;
+	if (beg > g_len)
+		beg = g_len;
+	if (end > g_len)
+		end = g_len;
+	if (beg == end && !buf)
+		return;
+	int ins = nondet_int();	/* number of lines of buf (0 iff NULL or empty) */
+	__CPROVER_assume(0 <= ins && ins <= 0x1000000 && (buf != 0 || ins == 0));
+	g_len = g_len - (end - beg) + ins;
+	__CPROVER_assume(g_len <= 0x1000000);
+}
+
+char *reg_get(int c, int *lnmode)
+{
+	__CPROVER_assert(c >= 0 && c < 256, "reg_get: register index in [0,256)");
+	if (lnmode)
+		*lnmode = nondet_int();
+	return X.reg_buf;
+}
+
+#define LINE_ENV_HAVOC() do { X.calls = 0; X.txt = 0; X.beg = X.end = -7; X.len0 = g_len; X.yank_calls = 0; X.mark_calls = 0; \
+	X.cp_calls = 0; X.print_lines = 0; X.reg_buf = nondet_bool() ? g_regtxt : (char *) 0; } while (0)
+char g_regtxt[2];
+
+void h_ec_insert(void)
+{
+	char loc[2], cmd[19], arg[2], txt[2];
+	GHOST_INIT();
+	FILE_ENV_HAVOC();
+	BUFS_HAVOC();
+	LINE_ENV_HAVOC();
+	CMD_HAVOC(cmd);
+	loc[0] = nondet_char(); loc[1] = 0; arg[0] = 0; txt[0] = nondet_char(); txt[1] = 0;
+	__CPROVER_assume(bufs[0].lb != 0);
+	__CPROVER_assume(cmd[0] == 'a' || cmd[0] == 'i' || cmd[0] == 'c');
+	int rb = B.region_beg, re = B.region_end, rr = B.region_ret;
+	/* on failure ex_region leaves what it parsed: any pair */
+	if (rr) { B.region_beg = nondet_int(); B.region_end = nondet_int(); rb = B.region_beg; re = B.region_end; }
+	int ret = ec_insert(loc, cmd, arg, txt);
+	if (rr && !(rb == 0 && re == 0)) {
+		__CPROVER_assert(ret == 1 && X.calls == 0, "ec_insert: an address that does not resolve is rejected with the buffer unchanged");
+	} else {
+		int p = cmd[0] == 'a' ? re : rb;
+		int q = cmd[0] == 'c' ? re : p;
+		__CPROVER_assert(ret == 0 && X.calls == 1 && X.txt == txt, "ec_insert: exactly one splice, of the text given");
+		__CPROVER_assert(X.beg == p && X.end == q, "ec_insert: append after the last addressed line, insert before the first, change replaces exactly the range (address 0 = before the first line)");
+		__CPROVER_assert(xrow == (g_len - 1 < q + g_len - X.len0 - 1 ? g_len - 1 : q + g_len - X.len0 - 1), "ec_insert: the current line becomes the last line of the inserted text");
+	}
+#ifdef CANARY
+	__CPROVER_assert(0, "canary");
+#endif
+}
+
+/* yank helper: lbuf_cp + reg_put (stubs record) */
+void h_ec_delete_yank(void)
+{
+	char loc[2], cmd[19], arg[2];
+	GHOST_INIT();
+	FILE_ENV_HAVOC();
+	BUFS_HAVOC();
+	LINE_ENV_HAVOC();
+	CMD_HAVOC(cmd);
+	loc[0] = nondet_char(); loc[1] = 0; arg[0] = nondet_char(); arg[1] = 0;
+	__CPROVER_assume(bufs[0].lb != 0);
+	int rb = B.region_beg, re = B.region_end, rr = B.region_ret;
+	int is_del = nondet_bool();
+	int puts0 = B.regput_calls;
+	int ret = is_del ? ec_delete(loc, cmd, arg, 0) : ec_yank(loc, cmd, arg, 0);
+	if (rr || X.len0 == 0) {
+		__CPROVER_assert(ret == 1 && X.calls == 0 && B.regput_calls == puts0, "ec_delete/ec_yank: an address that does not resolve is rejected, buffer and registers unchanged");
+	} else {
+		__CPROVER_assert(ret == 0 && B.regput_calls == puts0 + 1, "ec_delete/ec_yank: the addressed lines go to the register once");
+		if (is_del) {
+			__CPROVER_assert(X.calls == 1 && X.txt == 0 && X.beg == rb && X.end == re, "ec_delete: exactly one splice removing exactly the addressed range");
+			__CPROVER_assert(xrow == rb, "ec_delete: the current line is the line after the deleted range");
+		} else {
+			__CPROVER_assert(X.calls == 0, "ec_yank: never changes the buffer");
+		}
+	}
+#ifdef CANARY
+	__CPROVER_assert(0, "canary");
+#endif
+}
+
+void h_ec_put(void)
+{
+	char loc[2], cmd[19], arg[2];
+	GHOST_INIT();
+	FILE_ENV_HAVOC();
+	BUFS_HAVOC();
+	LINE_ENV_HAVOC();
+	CMD_HAVOC(cmd);
+	loc[0] = nondet_char(); loc[1] = 0; arg[0] = nondet_char(); arg[1] = 0;
+	__CPROVER_assume(bufs[0].lb != 0);
+	int rb = B.region_beg, re = B.region_end, rr = B.region_ret;
+	int ret = ec_put(loc, cmd, arg, 0);
+	if (rr || !X.reg_buf) {
+		__CPROVER_assert(ret == 1 && X.calls == 0, "ec_put: an empty register or an address that does not resolve is rejected with the buffer unchanged");
+	} else {
+		__CPROVER_assert(ret == 0 && X.calls == 1 && X.txt == X.reg_buf && X.beg == re && X.end == re, "ec_put: the register text is inserted after the last addressed line, nothing is removed");
+		__CPROVER_assert(xrow == (g_len - 1 < re + g_len - X.len0 - 1 ? g_len - 1 : re + g_len - X.len0 - 1), "ec_put: the current line becomes the last line put");
+	}
+#ifdef CANARY
+	__CPROVER_assert(0, "canary");
+#endif
+}
+
+void lbuf_mark(struct lbuf *lb, int mark, int pos, int off)
+{
+	X.mark_calls++;
+	X.mark = mark;
+	X.mark_pos = pos;
+}
+
+void h_ec_mark_lnum(void)
+{
+	char loc[2], cmd[19], arg[2];
+	GHOST_INIT();
+	FILE_ENV_HAVOC();
+	BUFS_HAVOC();
+	LINE_ENV_HAVOC();
+	CMD_HAVOC(cmd);
+	loc[0] = nondet_char(); loc[1] = 0; arg[0] = nondet_char(); arg[1] = 0;
+	__CPROVER_assume(bufs[0].lb != 0);
+	int rb = B.region_beg, re = B.region_end, rr = B.region_ret;
+	int prints0 = B.print_calls;
+	if (nondet_bool()) {
+		int ret = ec_mark(loc, cmd, arg, 0);
+		if (rr)
+			__CPROVER_assert(ret == 1 && X.mark_calls == 0, "ec_mark: an address that does not resolve sets no mark");
+		else
+			__CPROVER_assert(ret == 0 && X.mark_calls == 1 && X.mark == (unsigned char) arg[0] && X.mark_pos == re - 1, "ec_mark: marks the last addressed line");
+	} else {
+		int ret = ec_lnum(loc, cmd, arg, 0);
+		__CPROVER_assert(rr ? (ret == 1 && B.print_calls == prints0) : (ret == 0 && B.print_calls == prints0 + 1), "ec_lnum: prints once for a valid address, nothing otherwise");
+	}
+	__CPROVER_assert(X.calls == 0, "ec_mark/ec_lnum: never change the buffer");
 #ifdef CANARY
 	__CPROVER_assert(0, "canary");
 #endif
